@@ -20,6 +20,9 @@ func NewCodec(real func() codec.BinaryCodec) codec.BinaryCodec {
 	if rt.Symbolic() {
 		return Codec{}
 	}
+	if real == nil {
+		return codec.NewProtoCodec(codectypes.NewInterfaceRegistry())
+	}
 	return real()
 }
 
